@@ -32,6 +32,11 @@ PY
     exec ./bin/verifs "$@"
     ;;
 esac
+if [ "$1" = "C08" ]; then
+  # supplementary free-running pass under the race detector
+  VERIF_TIER=$2 timeout 1200 go test -race -count=1 ./racetest/ -run TestC08 > bin/c08race.log 2>&1
+  export VERIF_C08_RACE="$(pwd)/bin/c08race.log"
+fi
 if [ "$1" = "C15" ]; then
   go build -trimpath -o bin/verifa ./cmd/verifa || { echo "BUILD-ERROR: verifa" >&2; exit 2; }
   exec ./bin/verifa "$@"
